@@ -30,20 +30,20 @@ type c07State struct {
 }
 
 type c07In struct {
-	Kind    string // WRITE (upload / compose / copy), PATCH, DELETE, READMETA, READMEDIA
-	Id      string // WRITE: write id;  PATCH: tag
-	Cond    string // "", "absent", "gen"    (gen: the generation created by write CondW)
-	CondW   string
-	CondM   int64 // PATCH: ifMetagenerationMatch (0 = none)
-	Via     string
+	Kind  string // WRITE (upload / compose / copy), PATCH, DELETE, READMETA, READMEDIA
+	Id    string // WRITE: write id;  PATCH: tag
+	Cond  string // "", "absent", "gen"    (gen: the generation created by write CondW)
+	CondW string
+	CondM int64 // PATCH: ifMetagenerationMatch (0 = none)
+	Via   string
 }
 
 type c07Out struct {
-	Class   string // "ok", "precond" (412/304), "notfound" (404), "other:<status>"
-	Exists  bool
-	W       string
-	Meta    int64
-	Tag     string
+	Class  string // "ok", "precond" (412/304), "notfound" (404), "other:<status>"
+	Exists bool
+	W      string
+	Meta   int64
+	Tag    string
 }
 
 func (i c07In) String() string {
